@@ -13,7 +13,7 @@ THEOREMS = ["Props.C04." + t for t in [
     "unknown_base_service_rejected", "typedef_cycle_rejected",
     "undefined_const_rejected", "undefined_or_ambiguous_const_rejected",
     "include_cycle_rejected", "abstract_stage_rejected",
-    "reject_writes_nothing", "no_crash_partial", "no_exit0_without_output_partial",
+    "reject_writes_nothing", "no_crash_partial", "no_exit0_without_output_partial", "no_exit0_without_output",
     "union_second_default_witness", "crash_witness", "dup_argument_witness"]]
 
 PARTIAL = [
@@ -21,8 +21,8 @@ PARTIAL = [
     "CheckUnions never assigns hasDefault (union_check_never_fires, union_second_default_witness)",
     "no_crash_partial: excludes dotted constant identifiers that select through a typedef; with a typedef cycle getEnum "
     "overflows the stack (crash_witness)",
-    "no_exit0_without_output_partial: panics of the parser and of the backend are predicates of Env, not modelled code; "
-    "main.handlePanic returns normally (handlePanicExits=false)",
+    "no_exit0_without_output: full only through the regenerated fact handlePanicExits=true (main.handlePanic calls "
+    "os.Exit(2) since 035596c); panics of the parser and of the backend themselves are predicates of Env, not modelled code",
     "dup_field_name_rejected / dup_field_id_rejected: struct, union, exception only; argument and throws lists are not "
     "checked by the code (dup_argument_witness)",
     "resolver-stage theorems carry `outcome != crash` (same getEnum defect)",
